@@ -58,6 +58,8 @@ def load_tu(family, ndebug=True):
     d = json.loads(p.stdout)
     del p
     functions, records, globals_, fieldmap = {}, {}, {}, {}
+    entry = set()
+    entry_kinds = {}
     cur = None
     for n in d["inner"]:
         loc = n.get("loc", {})
@@ -82,7 +84,19 @@ def load_tu(family, ndebug=True):
                                                  if c.get("kind") == "FieldDecl" and "name" in c]
         elif k == "VarDecl":
             globals_[n["id"]] = n.get("name")
+            # functions referenced from file-scope initialisers (method tables, type
+            # slots, the C API struct): the entry points Python can call
+            todo = list(n.get("inner", []))
+            while todo:
+                x = todo.pop()
+                if x.get("kind") == "DeclRefExpr" and x.get("referencedDecl", {}).get("kind") == "FunctionDecl":
+                    entry.add(x["referencedDecl"].get("name"))
+                    entry_kinds.setdefault(x["referencedDecl"].get("name"), set()).add(
+                        "method" if "PyMethodDef" in n.get("type", {}).get("qualType", "") else "slot")
+                todo.extend(x.get("inner", []))
     tu = TU(family, functions, records, {}, globals_)
+    tu.entry_points = entry
+    tu.entry_kinds = entry_kinds       # name -> {"method" (reached by attribute lookup), "slot"}
     tu.fieldmap = fieldmap
     _cache[key] = tu
     return tu
